@@ -1598,6 +1598,18 @@ func serviceNodesTxn(tx ReadTxn, ws memdb.WatchSet, index string, q Query) (uint
 		idx = svcIdx
 	}
 
+	// Connect results are proxies (or native instances) registered under their
+	// own service names, whose changes do not touch the index of the service
+	// being queried. Take their indexes into account too, otherwise the first
+	// proxy registered for a service changes the result without raising the
+	// reported index and a blocked query never returns it.
+	if connect {
+		proxyIdx, _ := maxIndexAndWatchChsForServiceNodes(tx, results, false)
+		if idx < proxyIdx {
+			idx = proxyIdx
+		}
+	}
+
 	return idx, results, nil
 }
 
